@@ -10,15 +10,22 @@ SEARCH_BUDGET_S = 240
 # cases per engine run (after the seed-independent prelude)
 ENGINES = {
     'breaker': dict(quick=2000, thorough=60000),
+    'sf': dict(quick=400, thorough=8000),
+    'sfwrap': dict(quick=600, thorough=20000),
 }
 
 PROPS = {
     'C15': dict(spec_mods=['SsoSpec.C15'], engines=['breaker']),
+    'C16': dict(spec_mods=['SsoSpec.C16'], engines=['sf', 'sfwrap']),
 }
 
 # model branches every run must reach (engine:branch); a branch the implementation can no longer reach
 # means it no longer behaves like the model on the prelude's representative.
 FLOORS = {
+    'C16': ['sf:arrive/leader', 'sf:arrive/joined', 'sf:fnReturn/fnDone', 'sf:remove/ret', 'sf:wake/ret', 'sf:wake/blocked',
+            'sfwrap:proxy/validate/follower', 'sfwrap:proxy/refresh/follower', 'sfwrap:proxy/usergroups/follower',
+            'sfwrap:auth/validate/follower', 'sfwrap:auth/refreshIfNeeded/follower', 'sfwrap:auth/membership/follower',
+            'sfwrap:auth/revoke/follower', 'sfwrap:auth/refreshToken/follower'],
     'C15': ['breaker:admitted/0->0', 'breaker:admitted/1->1', 'breaker:admitted/2->1', 'breaker:rejected/2->2',
             'breaker:rejected/1->1', 'breaker:rejected/2->1', 'breaker:completed/0->2', 'breaker:completed/1->0',
             'breaker:completed/1->2', 'breaker:completed/2->1', 'breaker:complete/stale', 'breaker:complete/current',
@@ -37,16 +44,23 @@ COMMON_TB = [
 ]
 
 TB = {
+    'C16': ["Go's sync.Mutex and sync.WaitGroup semantics: the two locked sections of Do are atomic, fn runs outside the lock, Wait returns only after Done (the lock/call skeleton of Do is re-extracted and compared on every run)",
+            "the done/remove window is reached through a yield point inserted by tools/instrument.py into an overlay copy of the *current* singleflight.go (one added line; nil hook elsewhere)",
+            "proxy-side middleware runs around the real SSOProvider against a fake authenticator that holds requests; authenticator-side middleware runs around a blocking inner provider that updates the session the way the real providers' RefreshSessionIfNeeded does",
+            "modelled: all of internal/pkg/singleflight, the key construction and follower/leader data flow of both singleflight_middleware.go files; statsd counters are not modelled"],
     'C15': ["Go's sync.Mutex semantics: beforeRequest/afterRequest are each one atomic step (lock; defer unlock) — the lock skeleton is re-extracted and compared on every run",
             "benbjohnson/clock mock stands in for the wall clock; real-time behaviour is not claimed",
             "modelled: all of internal/auth/circuit/breaker.go except ExponentialBackoffDuration's floating-point jitter (the back-off rule is an arbitrary function in the theorems)"],
 }
 
 RULES = {
+    'C16': "sf: schedules over 2-8 threads x 1-3 keys (arrive | fnReturn v | remove | wake), arrivals before/while/after the leader runs and inside the done/remove window, values and errors; sfwrap: 2-5 callers per case over every coalesced method of both middlewares with tokens/emails/group sets drawn to collide or differ (incl. ':' and ',' in names, permuted group order), executions held until all callers arrived; non-trivial = at least one caller joined another's call; distinct = distinct case hash",
     'C15': "event lists (start i | complete i ok | tick d) over random rule tables (trip threshold 1-4 on fail or fail+cur, reset 1-3, back-off const/linear/cur-dependent, half-open cap 0-3), 5-45 events, ticks drawn at exactly / just before / just after the back-off; a fixed prelude covers every LTS step kind; a case is non-trivial when the breaker changed state at least once; distinct = distinct (cfg, ops) hash",
 }
 
 ASSUME = {
+    'C16': ["mutex / WaitGroup atomicity and happens-before as documented by Go", "sort.Strings returns a sorted permutation (sortedGroups is computed by the harness with the same library call)",
+            "statsd side effects ignored"],
     'C15': ["critical sections are atomic (Go mutex)", "the user function runs outside the lock between the two critical sections (lock skeleton fact, regenerated)",
             "Counts are mathematical integers (Go int overflow after 2^63 calls is out of scope)"],
 }
